@@ -81,14 +81,19 @@ class Check(PropertyCheck):
                   "organization and crl_url are part of the modelled request and certificate (Entry.org/crl, Op.get … org crl): "
                   "generated_carries_org_of_generating_request (a fresh certificate carries this call's organization/crl_url, a "
                   "cached one those of the get_cert of the history that generated it — they are not part of the key), and "
-                  "same_request_same_cert_while_cached now quantifies over the organization/crl_url of the repeated request.")
+                  "same_request_same_cert_while_cached now quantifies over the organization/crl_url of the repeated request. Owner "
+                  "round 6: same_request_same_cert_unrelated_registrations — the repeat clause also with add_cert calls in between, "
+                  "provided none of their registered names is a potential key of the request (the form the statement and the "
+                  "oracle use; a registration under a matching name may take the request over, first_registered_name_wins).")
     level_note = ("trusted: Lean kernel; the model/implementation tie is differential (random + directed histories over a "
                   "13-name universe incl. the empty name and names of 64+ characters, >STORE_CAP distinct requests); dummy_cert is "
                   "a parameter of the model except for its subject rule (subjectCn: CN only if non-empty and < 64 characters) "
                   "and 'SANs = the requested list', which the model predicts and the tie compares on real-signing histories — "
                   "not proved about the real dummy_cert (likewise `organization` -> subject O and `if crl_url:` -> CRL distribution point, "
                   "transcribed as Entry.org / certCrl and compared on every returned generated certificate); whether it raises on an "
-                  "empty CN is probed on every run; names are ASCII; add_cert is exercised with custom "
+                  "empty CN is probed on every run; the oracle takes 'its fixed capacity' from the implementation's STORE_CAP attribute (a change of the constant "
+                  "alone is noticed by the regenerated Gen table and the _storeCap corollary, not by the oracle); names are ASCII; "
+                  "add_cert is exercised with custom "
                   "(non-generated) entries only. Lenient branches of the oracle (each with a near-miss in known_selftest, run "
                   "from setup): (1) get_cert raising is excused only for real signing + empty CN + the probe saw dummy_cert "
                   "raise; (2) the subject may lack the CN only when the requested CN is empty or has 64+ characters (SANs are "
